@@ -34,6 +34,7 @@ type TmplData struct {
 	*shoot.TmplDataBase
 	Imports           string
 	AllList           []string
+	AllocMap          map[string][]Alloc
 	NewMap            map[string]string
 	GetSet            bool
 	GetterList        []string
@@ -63,6 +64,12 @@ func NewTmplData(cmdline, version string) *TmplData {
 	return &TmplData{
 		TmplDataBase: shoot.NewTmplDataBase(cmdline, version),
 	}
+}
+
+// Alloc is an embedded pointer struct on the way to a promoted field
+type Alloc struct {
+	Path string //selector path from the receiver, e.g. Base.Inner
+	Type string //pointed-to type
 }
 
 type Flags struct {
